@@ -896,7 +896,17 @@ class Interp:
             elif h.kind == "all" and h.args[0] == "eqzero":
                 self.facts.append(("notallzero", h.args[1]))
             elif h.kind == "and":
-                pass
+                # not(|x_1| <= c_1 and ... and |x_k| <= c_k) with constants c_i >= 0  =>  not all x_i are zero
+                cellsv = []
+                for part in h.args:
+                    if isinstance(part, Guard) and part.kind == "cmp" and part.args[0] in ("LtE", "Lt") and isinstance(part.args[1], E) \
+                            and isinstance(part.args[2], E) and part.args[2].is_const() and part.args[2].cval() >= 0:
+                        cellsv.append(part.args[1])
+                    else:
+                        cellsv = None
+                        break
+                if cellsv:
+                    self.facts.append(("notallzero", tuple(cellsv)))
             elif h.kind == "or":
                 for x in h.args:
                     self.learn(x.negate() if isinstance(x, Guard) else Guard("not", x))
